@@ -41,7 +41,7 @@ FAULT_PROPS = {
     "USE_DEAD": {"C02", "C04", "C10", "C15", "C17", "C18"},
     "USE_GARBAGE": {"C02", "C04", "C10", "C15", "C17", "C18"},
     "DEAD_IN_MAP": {"C02", "C04", "C05", "C10", "C17", "C18"},
-    "LEAK": {"C02", "C10", "C15", "C16"},
+    "LEAK": {"C02", "C03", "C10", "C15", "C16"},
     "LEN_MISMATCH": {"C05", "C17", "C03"},
     "LEN_GT_CAP": {"C05", "C17", "C03"},
     "IS_EMPTY": {"C05"},
@@ -52,7 +52,9 @@ FAULT_PROPS = {
     "SERDE": {"C20"},
     "CRASH": None,  # every property
 }
-FAULT_SUITES = {"C04"}          # suites whose base cases get every fault position
+# suites whose base cases get every fault position of the listed kinds
+# (1 eq, 2 clone, 3 drop, 4 closure / source next)
+FAULT_SUITES = {"C04": (1, 2, 3, 4), "C10": (3, 4), "C15": (2,), "C16": (4,)}
 LEVEL = {"C06": "other"}
 
 
@@ -221,7 +223,7 @@ def counters_and_drops(lines):
     return n_eq, n_clone, n_call, drops
 
 
-def add_faults(base_cases, tmp):
+def add_faults(base_cases, tmp, kinds=(1, 2, 3, 4), limit=None):
     """every single-fault position of every base case"""
     p = tmp + ".base"
     with open(p, "w") as f:
@@ -232,14 +234,20 @@ def add_faults(base_cases, tmp):
     for ci, line in enumerate(base_cases):
         n_eq, n_clone, n_call, drops = counters_and_drops(obs.get(ci, []))
         out.append(line)
-        for k in range(n_eq):
-            out.append(gen.case_with_fault(line, 1, k))
-        for k in range(n_clone):
-            out.append(gen.case_with_fault(line, 2, k))
-        for k in sorted(drops):
-            out.append(gen.case_with_fault(line, 3, k))
-        for k in range(n_call):
-            out.append(gen.case_with_fault(line, 4, k))
+        if limit is not None and ci >= limit:
+            continue
+        if 1 in kinds:
+            for k in range(n_eq):
+                out.append(gen.case_with_fault(line, 1, k))
+        if 2 in kinds:
+            for k in range(n_clone):
+                out.append(gen.case_with_fault(line, 2, k))
+        if 3 in kinds:
+            for k in sorted(drops):
+                out.append(gen.case_with_fault(line, 3, k))
+        if 4 in kinds:
+            for k in range(n_call):
+                out.append(gen.case_with_fault(line, 4, k))
     return out
 
 
@@ -423,7 +431,7 @@ def check(prop, tier, replay=None):
                     corpus += [l.strip() for l in open(os.path.join(cdir, f)) if l.strip() and not l.startswith("#")]
         base = gen.suite(prop, rng, tier)
         if prop in FAULT_SUITES:
-            base = add_faults(base, tmp)
+            base = add_faults(base, tmp, FAULT_SUITES[prop], None if prop == "C04" else (60 if tier == "quick" else 600))
         cases = corpus + base
     cpath = tmp + ".cases"
     with open(cpath, "w") as f:
